@@ -701,7 +701,7 @@ ErrorCode Library::write_oas(const char* filename, double circle_tolerance,
                 } else {
                     uint64_t len = strlen(name_);
                     oasis_write_unsigned_integer(out, len);
-                    oasis_write(ref->name, 1, len, out);
+                    oasis_write(name_, 1, len, out);
                 }
             } else {
                 if (ref->magnification != 1) info |= 0x04;
@@ -714,7 +714,7 @@ ErrorCode Library::write_oas(const char* filename, double circle_tolerance,
                 } else {
                     uint64_t len = strlen(name_);
                     oasis_write_unsigned_integer(out, len);
-                    oasis_write(ref->name, 1, len, out);
+                    oasis_write(name_, 1, len, out);
                 }
                 if (ref->magnification != 1) {
                     oasis_write_real(out, ref->magnification);
